@@ -88,9 +88,9 @@ fn run_case(c: &Value, rng: &mut StdRng, rep: &mut Report) {
                 let age: u32 = rng.gen_range(0..0x1_0000);
                 let sig: u32 = rng.gen();
                 let cvk = s["cv"].as_str().unwrap();
-                let blen = match cvk { "elf0" => 0, "elf8" => 8, "elf16" => 16, "elf20" => 20, "elf_zero" => 20, _ => 0 };
+                let blen = match cvk { "elf0" => 0, "elf8" => 8, "elf16" => 16, "elf20" => 20, "elf20_z16" => 20, "elf_zero" => 20, _ => 0 };
                 let mut build: Vec<u8> = (0..blen).map(|_| rng.gen()).collect();
-                if cvk == "elf_zero" { build = vec![0; 20]; } else if blen > 0 { build[0] |= 1; }
+                if cvk == "elf_zero" { build = vec![0; 20]; } else if cvk == "elf20_z16" { for b in &mut build[..16] { *b = 0; } build[19] |= 1; } else if blen > 0 { build[0] |= 1; }
                 let ver: [u32; 4] = [rng.gen(), rng.gen(), rng.gen(), rng.gen()];
                 let mut vi = vf_common::format::VS_FIXEDFILEINFO { signature: 0xfeef04bd, struct_version: 0x00010000, file_version_hi: ver[0], file_version_lo: ver[1], product_version_hi: ver[2],
                     product_version_lo: ver[3], file_flags_mask: 0x3f, file_flags: 0, file_os: 0x40004, file_type: 1, file_subtype: 0, file_date_hi: 0, file_date_lo: 0 };
@@ -102,7 +102,7 @@ fn run_case(c: &Value, rng: &mut StdRng, rep: &mut Report) {
                     "pdb70" => Some(Section::with_endian(endian).D32(0x5344_5352).D32(g1).D16(g2).D16(g3).append_bytes(&g4).D32(age).append_bytes(pdb.as_bytes()).D8(0)),
                     "pdb70_nil" => Some(Section::with_endian(endian).D32(0x5344_5352).D32(0).D16(0).D16(0).append_bytes(&[0; 8]).D32(age).append_bytes(pdb.as_bytes()).D8(0)),
                     "pdb20" => Some(Section::with_endian(endian).D32(0x3031_424e).D32(0).D32(sig).D32(age).append_bytes(pdb.as_bytes()).D8(0)),
-                    "elf0" | "elf8" | "elf16" | "elf20" | "elf_zero" => Some(Section::with_endian(endian).D32(0x4270_454c).append_bytes(&build)),
+                    "elf0" | "elf8" | "elf16" | "elf20" | "elf20_z16" | "elf_zero" => Some(Section::with_endian(endian).D32(0x4270_454c).append_bytes(&build)),
                     "unknown" => Some(Section::with_endian(endian).D32(0x1234_5678).append_bytes(&[9, 9, 9, 9, 9, 9, 9, 9])),
                     _ => None,
                 };
